@@ -105,8 +105,9 @@ Proof.
   destruct (net_read (rd s)) as [it r'].
   destruct it; try (intros []; fail); try (intros [H|[]]; discriminate);
     repeat (match goal with |- In _ (if ?b then _ else _) -> _ => destruct b end);
-    try (intros [H|[H|[]]]; inversion H; auto; fail);
-    (intros [H|H]; [inversion H; auto|]; eapply IH; exact H).
+    intros H;
+    repeat (destruct H as [H|H]; [try discriminate; inversion H; auto|]);
+    try (destruct H; fail); eapply IH; exact H.
 Qed.
 
 Lemma sync_replies f s evs s1 c : sync_pipelining f s = (Some evs, s1) -> In (Reply c) evs ->
@@ -157,7 +158,8 @@ Proof.
   { intros H; inversion H; subst. right; right; left. exists e, s1. auto 10. }
   apply sync_none in Es as (-> & Hi & Hc).
   intros H. right; right; right.
-  rewrite Hi in H. unfold hs_post.
+  rewrite Hi in H. replace (if NETIO_DROPS_STALE_INPUT then @nil N else []) with (@nil N) in H by (destruct NETIO_DROPS_STALE_INPUT; reflexivity).
+  unfold hs_post.
   destruct (handshake (o_eat o) (en (rd s)) (later t) closes) as [segs l'|a e' l'| | |];
     inversion H; subst; cbn [tag map app]; repeat split; auto.
 Qed.
@@ -234,7 +236,7 @@ Lemma tstep_cases f o closes t evs so : tstep f o closes t = (evs, so) ->
         /\ tdispatch f o closes t (set_rd (ss t) r') l i row = (ev1, h, t1)
         /\ match h with
            | HEXIT => evs = ev1 /\ so = None
-           | H0 => evs = ev1 /\ so = Some t1
+           | H0 => evs = ev1 ++ [TE (tls t1) (Note NBadReset)] /\ so = Some t1
            | _ => exists ev so', on_error (ss t1) h = (ev, so') /\ evs = ev1 ++ tag (tls t1) ev /\ so = option_map (mk t1) so'
            end).
 Proof.
@@ -260,7 +262,7 @@ Qed.
 Definition round_switch (o : toracles) (closes : bool) (t : tstate) (s : sstate) (evs : list tevent) (so : option tstate) : Prop :=
   exists segs l',
     handshake (o_eat o) (en (rd s)) (later t) closes = HS_ok segs l'
-    /\ evs = [TE false (Reply TLS_READY_CODE); TSwitch]
+    /\ evs = [TE false (Reply TLS_READY_CODE); TSwitch; TE true (Note NBadReset)]
     /\ so = Some {| ss := set_badcmds (set_comstate (set_rd s {| inn := []; en := {| cur := []; future := segs |} |}) 1%N) 0;
                     tls := true; later := l' |}.
 
@@ -409,7 +411,7 @@ Theorem no_cleartext_at_switch f o closes t evs so :
     /\ inn r' = [] /\ exhausted (en r') = true
     /\ later t = (HsOk, segs) :: l'
     /\ tls t = false /\ esmtp (ss t) = true /\ o_tlsinit o = true /\ N.land (comstate (ss t)) 16 <> 0%N
-    /\ evs = [TE false (Reply TLS_READY_CODE); TSwitch]
+    /\ evs = [TE false (Reply TLS_READY_CODE); TSwitch; TE true (Note NBadReset)]
     /\ so = Some {| ss := set_badcmds (set_comstate (set_rd (ss t) {| inn := []; en := {| cur := []; future := segs |} |}) 1%N) 0;
                     tls := true; later := l' |}.
 Proof.
@@ -602,7 +604,8 @@ Proof.
   induction evs as [|e r IH]; intros a; cbn [forallb ttrace_run]; [reflexivity|].
   intros H. apply andb_true_iff in H as [He Hr].
   destruct e as [b e| | | |]; try (apply IH; exact Hr); [|discriminate].
-  destruct e; try discriminate; cbn [trace_step]; apply IH; exact Hr.
+  destruct e as [c|env msg| | |n]; try discriminate; try (cbn [trace_step]; apply IH; exact Hr).
+  destruct n; try discriminate; cbn [trace_step]; apply IH; exact Hr.
 Qed.
 
 Lemma tquiet_tag b e : quiet e -> forallb tquiet_ev (tag b e) = true.
@@ -716,7 +719,8 @@ Proof.
   - rewrite Ht in H. discriminate.
   - inversion H; subst. left. split; assumption.
   - inversion H; subst. left. split; assumption.
-  - destruct n; try (rewrite ?Hp, ?Ht in H; discriminate).
+  - destruct n; try (rewrite ?Hp, ?Ht in H; discriminate);
+      try (inversion H; subst; left; split; assumption).
     + inversion H; subst. rewrite Hp. left. split; reflexivity.
     + right. reflexivity.
 Qed.
@@ -765,13 +769,13 @@ Qed.
 (** a hand-off after the handshake carries exactly the transaction built from what was accepted after the handshake *)
 Theorem handoff_after_switch o sc pre mid b env msg post :
   trun o sc = pre ++ TSwitch :: mid ++ TE b (Handoff env msg) :: post ->
-  exists a f rs, ttrace_run (o_clear o) mid a_init = Some a /\ a_txn a = Some (f, rs) /\ env = env_of (Some (f, rs)).
+  exists a f rs, ttrace_run (o_clear o) mid a_init = Some a /\ a_txn a = Some (f, rs) /\ env = env_of (o_liphost (o_clear o)) (Some (f, rs)).
 Proof.
   intros E. pose proof (reset_after_switch o sc) as Hok. unfold ttrace_ok in Hok. rewrite E in Hok.
   apply ttrace_split in Hok. apply ttrace_prefix in Hok as (a1 & Hmid & Hrest).
   cbn [ttrace_run trace_step] in Hrest.
   destruct (a_txn a1) as [[f rs]|] eqn:Et; [|congruence].
-  destruct (bytes_eqb env (env_of (Some (f, rs)))) eqn:Eb; [|congruence].
+  destruct (bytes_eqb env (env_of (o_liphost (o_clear o)) (Some (f, rs)))) eqn:Eb; [|congruence].
   apply bytes_eqb_eq in Eb. exists a1, f, rs. auto.
 Qed.
 
@@ -817,7 +821,7 @@ Qed.
 
 Lemma tstep_in_clear f o closes t evs so : tls t = false -> tstep f o closes t = (evs, so) ->
   (forallb in_clear evs = true /\ (forall t', so = Some t' -> tls t' = false))
-  \/ (evs = [TE false (Reply TLS_READY_CODE); TSwitch] /\ exists t', so = Some t' /\ tls t' = true).
+  \/ (evs = [TE false (Reply TLS_READY_CODE); TSwitch; TE true (Note NBadReset)] /\ exists t', so = Some t' /\ tls t' = true).
 Proof.
   intros Ht Hstep.
   destruct (tstep_cases _ _ _ _ _ _ Hstep) as [(e0 & so0 & _ & -> & -> & _)|(l & r' & i & row & ev1 & h & t1 & Hread & Hrow & _)].
@@ -847,7 +851,7 @@ Proof.
   destruct (tstep_in_clear _ _ _ _ _ _ Ht Es) as [(Hev & Hn)|(-> & t' & -> & Ht')].
   - rewrite shape_ok_app; [|exact Hev]. destruct so as [t'|]; [apply IH, Hn; reflexivity|].
     destruct (closes && no_later t); [rewrite Ht|]; reflexivity.
-  - cbn [app shape_ok in_clear negb andb]. apply tserve_in_tls. exact Ht'.
+  - cbn [app shape_ok in_clear negb andb forallb in_tls]. apply tserve_in_tls. exact Ht'.
 Qed.
 
 Theorem shape o sc : shape_ok (trun o sc) = true.
@@ -881,7 +885,7 @@ Definition fresh_in_tls (t' : tstate) (segs : list bytes) : Prop :=
 
 Lemma tserve_factor fuel o closes : forall t a pre post,
   R (o_clear o) (ss t) a -> tls t = false -> tserve fuel o closes t = pre ++ TSwitch :: post ->
-  exists f' t' segs, post = tserve f' o closes t' /\ fresh_in_tls t' segs.
+  exists f' t' segs, post = TE true (Note NBadReset) :: tserve f' o closes t' /\ fresh_in_tls t' segs.
 Proof.
   induction fuel as [|f IH]; intros t a pre post HR Ht E; cbn [tserve] in E.
   { destruct pre as [|p [|q pre]]; discriminate. }
@@ -897,13 +901,14 @@ Proof.
     subst ev so. inversion Hso'; subst t'. clear Hso'.
     cbn [app] in E.
     pose proof (tserve_in_tls f o closes _ Ht') as Htl. apply in_tls_no_switch in Htl.
-    assert (Epost : post = tserve f o closes
+    assert (Epost : post = TE true (Note NBadReset) :: tserve f o closes
               {| ss := set_badcmds (set_comstate (set_rd (ss t) {| inn := []; en := {| cur := []; future := segs |} |}) 1%N) 0;
                  tls := true; later := l' |}).
     { destruct pre as [|p [|q pre]]; cbn [app] in E.
       - discriminate.
       - inversion E; reflexivity.
-      - exfalso. inversion E as [[E1 E2 E3]]. apply Htl. rewrite E3. apply in_or_app. right. left. reflexivity. }
+      - exfalso. inversion E as [[E1 E2 E3]]. destruct pre as [|q2 pre]; cbn [app] in E3; [discriminate|].
+        inversion E3 as [[E4 E5]]. apply Htl. rewrite E5. apply in_or_app. right. left. reflexivity. }
     eexists f, _, segs. split; [exact Epost|].
     assert (HRs : R (o_clear o) (set_rd (ss t) r') a) by exact HR.
     assert (Hm' : N.land (comstate (set_rd (ss t) r')) 16 <> 0%N) by exact Hm.
@@ -912,7 +917,7 @@ Proof.
 Qed.
 
 Theorem after_switch_only_tls_input o sc pre post : trun o sc = pre ++ TSwitch :: post ->
-  exists f' t' segs, post = tserve f' o (sc_closes sc) t' /\ fresh_in_tls t' segs.
+  exists f' t' segs, post = TE true (Note NBadReset) :: tserve f' o (sc_closes sc) t' /\ fresh_in_tls t' segs.
 Proof.
   unfold trun. generalize (tfuel sc) as fu. intros fu E.
   destruct pre as [|p pre]; cbn [app] in E; [discriminate|]. injection E as _ E'.
